@@ -145,12 +145,13 @@ class Gates:
     def served_open(self) -> int:
         return sum(1 for s in self.state if s in ("parked", "running"))
 
-    def _admissions(self, why: str) -> None:
-        """A slot may have been freed: wait for exactly as many queued clients as there are free slots."""
-        queued = [i for i, s in enumerate(self.state) if s == "queued"]
+    def _admissions(self, why: str, queued: list[int]) -> None:
+        """A slot may have been freed: wait for exactly as many of *queued* (the clients that were queued before the
+        slot was freed) as there are free slots.  Some may already have reached their gate by the time we look."""
         if not queued:
             return
-        free = len(queued) if self.m is None else max(0, self.m - self.served_open())
+        others = sum(1 for i, s in enumerate(self.state) if s in ("parked", "running") and i not in queued)
+        free = len(queued) if self.m is None else max(0, self.m - others)
         expect = min(free, len(queued))
         if expect:
             self._wait(
@@ -181,7 +182,7 @@ class Gates:
                     pick: Any = "start"
                 elif not options:
                     if queued and (self.m is None or self.served_open() < self.m):
-                        self._admissions("(free slot, nothing else to schedule)")
+                        self._admissions("(free slot, nothing else to schedule)", queued)
                         continue
                     raise Stall(f"nothing to schedule; states={self.state}")
                 else:
@@ -210,7 +211,7 @@ class Gates:
                 self.cv.notify_all()
                 self._wait(lambda ci=ci: self.state[ci] in ("parked", "done"), f"client {ci} to reach its next gate or finish")
                 if self.state[ci] == "done":
-                    self._admissions(f"after client {ci} closed")
+                    self._admissions(f"after client {ci} closed", queued)
 
     def abort(self) -> None:
         with self.cv:
